@@ -19,7 +19,52 @@ var (
 	raceLogPath string
 	raceOffset  int64
 	raceSeen    = map[string]bool{}
+	raceSkip    [][2]int64 // byte ranges of the log written while an execution was being torn down
+	raceTDStart int64
 )
+
+func init() {
+	if vsched.RaceEnabled {
+		vsched.TeardownHook = func(begin bool) {
+			path := raceLogFile()
+			if path == "" {
+				return
+			}
+			var size int64
+			if st, err := os.Stat(path); err == nil {
+				size = st.Size()
+			}
+			if begin {
+				raceTDStart = size
+			} else if size > raceTDStart {
+				raceSkip = append(raceSkip, [2]int64{raceTDStart, size})
+			}
+		}
+	}
+}
+
+// dropTeardown removes from buf (which starts at file offset off) the parts written during tear-down.
+func dropTeardown(buf []byte, off int64) []byte {
+	var out []byte
+	pos := off
+	for _, r := range raceSkip {
+		if r[1] <= pos || r[0] >= off+int64(len(buf)) {
+			continue
+		}
+		lo, hi := r[0], r[1]
+		if lo < pos {
+			lo = pos
+		}
+		if hi > off+int64(len(buf)) {
+			hi = off + int64(len(buf))
+		}
+		out = append(out, buf[pos-off:lo-off]...)
+		pos = hi
+	}
+	out = append(out, buf[pos-off:]...)
+	raceSkip = raceSkip[:0]
+	return out
+}
 
 func raceLogFile() string {
 	if raceLogPath != "" {
@@ -112,6 +157,7 @@ func raceViolations() []explore.Violation {
 	}
 	buf := make([]byte, st.Size()-raceOffset)
 	f.ReadAt(buf, raceOffset)
+	buf = dropTeardown(buf, raceOffset)
 	raceOffset = st.Size()
 	var out []explore.Violation
 	for _, r := range parseRaceReports(string(buf)) {
